@@ -374,8 +374,24 @@ Definition site_closes_ok (sites : list sk_site) (id : string * string) : bool :
   | None => false
   end.
 
+(* pooled snappy objects (WithCompressionFromPool) go back to the process-wide pool when the recycle function
+   runs; that is only sound in a function that blocks in libio.Join until the stream is over.  A site that
+   returns or queues the wrapped connection must use WithCompression. *)
+Definition has_pooled (s : sk_site) : bool :=
+  existsb (fun l => match l with SkComp _ true _ => true | _ => false end) (sk_layers s).
+Definition pooled_only_with_join (sites : list sk_site) : bool :=
+  forallb (fun s => if has_pooled s then match sk_joins s with [] => false | _ => true end else true) sites.
+
 Definition closes_ok (sites : list sk_site) : bool :=
-  forallb (site_closes_ok sites) c01_join_sites && forallb (site_shapes_ok sites) c01_all_sites.
+  forallb (site_closes_ok sites) c01_join_sites && forallb (site_shapes_ok sites) c01_all_sites &&
+  pooled_only_with_join sites.
+
+(* a handshake message is read directly from the connection that is afterwards wrapped and joined: no
+   buffering reader in between (what it reads ahead would be swallowed, cf. unshared_drops_only_sniffed) *)
+Definition handshake_readers_ok (hr : list (string * string * string)) : bool :=
+  (3 <=? length hr)%nat &&
+  forallb (fun x => match x with (_, _, a) =>
+    String.eqb a "$recv.helper.ConnectServer()#0" || String.eqb a "$recv.connectServer()#0" end) hr.
 
 (* ---------- 5. close propagation end to end: two Joins and the transport between them ---------- *)
 
@@ -417,3 +433,112 @@ Definition e2e_drain : list e2ev := srv_drain ++ [ELink] ++ cli_drain ++ [ELink]
 
 Definition not_backend_close (e : e2ev) : bool := match e with EBackendClose => false | _ => true end.
 Definition not_user_close (e : e2ev) : bool := match e with EUserClose => false | _ => true end.
+
+(* ---------- 6. the vhost muxer's handling of one connection (vhost.Muxer.handle) ---------- *)
+
+(* The translator lists what handle does to the connection in source order (muxer_handle_events).
+   Two things matter to C01:
+   (a) deadlines: handle arms a read+write deadline for sniffing; whatever is still armed when the
+       connection is handed to the proxy stays armed for the life of the tunnel;
+   (b) order of the success hook (tcpmux without passthrough: writes the CONNECT answer to the user) and the
+       hand-off (send on the listener's accept channel): after the hand-off the proxy goroutine owns the
+       connection and writes the backend's bytes to it, concurrently with whatever handle still does. *)
+Definition dl_step (st : bool * bool) (e : string) : bool * bool :=
+  let '(r, w) := st in
+  if String.eqb e "arm:SetDeadline" then (true, true)
+  else if String.eqb e "arm:SetReadDeadline" then (true, w)
+  else if String.eqb e "arm:SetWriteDeadline" then (r, true)
+  else if String.eqb e "clear:SetDeadline" then (false, false)
+  else if String.eqb e "clear:SetReadDeadline" then (false, w)
+  else if String.eqb e "clear:SetWriteDeadline" then (r, false)
+  else (r, w).
+
+(* (read deadline armed, write deadline armed) at the moment of the hand-off; None: no hand-off *)
+Fixpoint dl_at_handoff (st : bool * bool) (evs : list string) : option (bool * bool) :=
+  match evs with
+  | [] => None
+  | e :: r => if String.eqb e "handoff" then Some st else dl_at_handoff (dl_step st e) r
+  end.
+
+Inductive mux_op := MResp | MHandoff | MOther.
+
+Definition mux_op_of (e : string) : mux_op :=
+  if String.eqb e "successHook" then MResp else if String.eqb e "handoff" then MHandoff else MOther.
+Definition mux_prog_of (evs : list string) : list mux_op := map mux_op_of evs.
+
+(* two goroutines writing to the user's connection: the muxer goroutine runs its program; the proxy
+   goroutine writes the backend's chunks, but only once the connection was handed to it *)
+Record mh_state := { mh_prog : list mux_op; mh_handed : bool; mh_chunks : list bytes; mh_out : bytes }.
+Inductive mh_tid := TMux | TProxy.
+
+Definition mh_step (R : bytes) (st : mh_state) (t : mh_tid) : mh_state :=
+  match t with
+  | TMux =>
+      match mh_prog st with
+      | [] => st
+      | MResp :: r => {| mh_prog := r; mh_handed := mh_handed st; mh_chunks := mh_chunks st; mh_out := mh_out st ++ R |}
+      | MHandoff :: r => {| mh_prog := r; mh_handed := true; mh_chunks := mh_chunks st; mh_out := mh_out st |}
+      | MOther :: r => {| mh_prog := r; mh_handed := mh_handed st; mh_chunks := mh_chunks st; mh_out := mh_out st |}
+      end
+  | TProxy =>
+      if mh_handed st then
+        match mh_chunks st with
+        | [] => st
+        | c :: r => {| mh_prog := mh_prog st; mh_handed := true; mh_chunks := r; mh_out := mh_out st ++ c |}
+        end
+      else st
+  end.
+
+Definition mh_init (p : list mux_op) (bs : list bytes) : mh_state :=
+  {| mh_prog := p; mh_handed := false; mh_chunks := bs; mh_out := [] |}.
+Definition mh_run (R : bytes) (sched : list mh_tid) (st : mh_state) : mh_state := fold_left (mh_step R) sched st.
+
+Definition is_resp (o : mux_op) : bool := match o with MResp => true | _ => false end.
+Fixpoint resp_before_handoff (p : list mux_op) : bool :=
+  match p with
+  | [] => true
+  | MHandoff :: r => negb (existsb is_resp r)
+  | _ :: r => resp_before_handoff r
+  end.
+Fixpoint resp_bytes (R : bytes) (p : list mux_op) : bytes :=
+  match p with [] => [] | MResp :: r => R ++ resp_bytes R r | _ :: r => resp_bytes R r end.
+
+(* httppkg.OkResponse().Write: "HTTP/1.1 200 OK\r\nContent-Length: 0\r\n\r\n" *)
+Definition connect_ok_response : bytes :=
+  hx "485454502f312e3120323030204f4b0d0a436f6e74656e742d4c656e6774683a20300d0a0d0a".
+
+Fixpoint last_str (l : list string) : option string :=
+  match l with [] => None | [x] => Some x | _ :: r => last_str r end.
+
+Definition mux_order_ok (evs : list string) (hooks : list (string * string)) (cresp : list string) : bool :=
+  resp_before_handoff (mux_prog_of evs) &&
+  (length (filter is_resp (mux_prog_of evs)) =? 1)%nat &&
+  str_is (last_str evs) "handoff" &&
+  negb (existsb (fun e => br_prefix "?" e) evs) &&
+  match dl_at_handoff (false, false) evs with Some (false, false) => true | _ => false end &&
+  match br_assoc_s "SetSuccessHookFunc" hooks with Some h => br_suffix ".sendConnectResponse" h | None => false end &&
+  existsb (fun c => String.eqb c "return httppkg.OkResponse().Write($0)") cresp &&
+  existsb (fun c => String.eqb c "if $recv.passthrough") cresp.
+
+(* ---------- 7. yamux stream close: does the reader get everything the closer wrote? ---------- *)
+
+(* tcpMux on: when the writing side closes its stream yamux sends FIN and arms StreamCloseTimeout; the
+   timer is stopped only by the peer's FIN, which the peer sends after it has drained what is buffered on
+   its side (at most MaxStreamWindowSize bytes) at its own pace (a bandwidth limit, a slow reader).  If the
+   timer fires first the closer resets the stream and the reader's Read fails although data is still
+   buffered: the reader sees the end of the stream after a truncated prefix.
+   [inflight]: bytes written but not yet drained when the writer's side closed; [rate]: drain rate in
+   bytes per second.  yamux itself is not verified; this is its documented close protocol. *)
+Definition drain_ms (inflight rate : Z) : Z := (inflight * 1000 + rate - 1) / rate.
+
+Definition drain_delivered (timeout_ms rate inflight : Z) : Z :=
+  if drain_ms inflight rate <=? timeout_ms then inflight else rate * timeout_ms / 1000.
+
+Definition yamux_fields_allowed : list string := ["KeepAliveInterval"; "LogOutput"; "MaxStreamWindowSize"].
+
+Definition yamux_cfg_ok (sites : list (string * string * string * string)) (wins : list (string * string * Z)) (default_ms : Z) : bool :=
+  forallb (fun x => match x with (_, _, f, v) =>
+     existsb (String.eqb f) yamux_fields_allowed &&
+     (if String.eqb f "KeepAliveInterval" then br_suffix ".Transport.TCPMuxKeepaliveInterval) * time.Second" v else true) end) sites &&
+  (length wins =? 2)%nat && forallb (fun x => match x with (_, _, w) => w =? 6291456 end) wins &&
+  (default_ms =? 300000).
